@@ -15,6 +15,7 @@ import (
 	"os"
 	"path/filepath"
 	"runtime"
+	"sort"
 	"strings"
 	"sync"
 	"testing/synctest"
@@ -94,6 +95,11 @@ type World struct {
 	CrashAtGate  int
 	crashGateCnt int
 	OnCrash      func(t *Task, at GateInfo)
+	// CrashTorn: when the planned crash lands on a state write, the write is
+	// carried out, the process dies right after it and the journal record it
+	// appended to the LevelDB log is cut at a tape-chosen byte (a write the
+	// process died in the middle of)
+	CrashTorn bool
 	// airgapped crash plan: the CrashAirAt-th gate granted to any airgapped
 	// task (start / air.afterResult / air.afterLog) kills that machine
 	CrashAirAt int
@@ -340,6 +346,10 @@ func (w *World) Grant(t *Task) {
 		}
 	}
 	w.Gates++
+	if cmd == cmdCrash && w.CrashTorn && isWriteGate(g.Point) && w.Nodes[t.Node].inc != nil {
+		w.tornCrash(t, g)
+		return
+	}
 	if cmd == cmdCrash {
 		w.Log.Add("crash %s at %s %s", t.Name, g.Point, g.Key)
 		w.Stats.Fault("crash-hot")
@@ -352,6 +362,61 @@ func (w *World) Grant(t *Task) {
 	w.Log.Add("g %s %s %s", t.Name, g.Point, g.Key)
 	t.grant <- cmdGo
 	w.settle()
+}
+
+func isWriteGate(point string) bool {
+	return point == "st.set" || point == "st.saveOffset" || point == "st.del"
+}
+
+// journalTail returns the newest LevelDB journal file of dir and its size.
+func journalTail(dir string) (string, int64) {
+	fs, _ := filepath.Glob(filepath.Join(dir, "*.log"))
+	sort.Strings(fs)
+	if len(fs) == 0 {
+		return "", 0
+	}
+	f := fs[len(fs)-1]
+	st, err := os.Stat(f)
+	if err != nil {
+		return "", 0
+	}
+	return f, st.Size()
+}
+
+// tornCrash: the write the task is parked at goes through, the process dies
+// right behind it, and the record it appended to the journal is truncated at a
+// byte chosen from an own stream of the tape (so the schedule is not shifted).
+func (w *World) tornCrash(t *Task, g *GateInfo) {
+	n := w.Nodes[t.Node]
+	dir := n.inc.real.SimPath()
+	f0, s0 := journalTail(dir)
+	// what is durable if the write is lost
+	pend0, del0 := pendingRaw(n.inc)
+	off0, _ := n.inc.real.LoadOffset()
+	n.inc.gs.mu.Lock()
+	n.inc.gs.torn = true
+	n.inc.gs.mu.Unlock()
+	w.Log.Add("crash-torn %s at %s %s", t.Name, g.Point, g.Key)
+	w.Stats.Fault("crash-hot")
+	if w.OnCrash != nil {
+		w.OnCrash(t, *g)
+	}
+	t.grant <- cmdGo
+	w.settle()
+	f1, s1 := journalTail(dir)
+	w.killNodeTasks(t.Node, nil)
+	if f0 != "" && f0 == f1 && s1 > s0+1 {
+		cut := s0 + 1 + int64(w.Tape.Sub(0x7042+uint64(w.Gates)).Next()%uint64(s1-s0-1))
+		if err := os.Truncate(f1, cut); err == nil {
+			w.Stats.Fault("torn-write")
+			n.DeadPending, n.DeadDeleted, n.DeadOffset = pend0, del0, off0
+			w.Log.Add("torn %d of %d journal bytes kept", cut-s0, s1-s0)
+			return
+		}
+	}
+	// the journal rotated or the record is too small to tear: the run is a
+	// crash right behind a completed write
+	w.Stats.Probe("torn-write-not-applicable")
 }
 
 // killNodeTasks answers every gate of every task of the node with a crash
